@@ -269,14 +269,14 @@ example : outcome Cfg.checked ⟨.d2 2 3, .lf 1 0 (.range (.lit 1) (.lit 2)), so
 example : outcome Cfg.checked ⟨.d2 2 3, .fl .all 1 1, some (.two (.lit 1) (.lit 2))⟩
     = some [[(0, 1), (1, 1)], [(0, 2), (1, 2)]] := by decide
 
-/-- Finding C23-F4 (open): on the tree as it is a single subscript on a 2-D array indexes the storage linearly —
+/-- Finding C23-F4 (fixed by 8f5c8e6): without padding a single subscript on a 2-D array indexes the storage linearly —
     `x[2]` on `Real x[2,3]` is the element `x[2,1]`, and `x[1:2]` two elements of the first column. -/
 theorem single_subscript_is_linear :
     outcome Cfg.checked ⟨.d2 2 3, .f1 (.idx (.lit 2)), none⟩ = some [[(1, 0)]] ∧
     outcome Cfg.checked ⟨.d2 2 3, .f1 (.range (.lit 1) (.lit 2)), none⟩ = some [[(0, 0)], [(1, 0)]] := by
   decide
 
-/-- With the proposed padding (C23-3) a single subscript on `Real x[n, m]` selects whole rows: exactly the
+/-- With the padding of missing subscripts (C23-3, the current tree) a single subscript on `Real x[n, m]` selects whole rows: exactly the
     denoted rows, all of them existing, each with all `m` columns. -/
 theorem padded_single_subscript_selects_rows (n m : Nat) (a : FSub) (rows : List (List Pos))
     (h : outcomePadded Cfg.checked ⟨.d2 n m, .f1 a, none⟩ = some rows) :
